@@ -103,6 +103,9 @@ for fn in files:
             byid[cid] = f
         if sg not in f["signatures"]:
             f["signatures"].append(sg)
+        if e.get("vars"):
+            dv = f.setdefault("diffvars", {})
+            dv[sg] = sorted(set(dv.get(sg, [])) | set(e["vars"]))
         if f["witness"] is None:
             f["witness"] = dict(source=e["example"]["src"], args=["-" + e["example"]["variant"]], input=e["example"]["input"], got_vs_want=e["example"]["diff"])
 for f in kf["findings"]:
